@@ -78,6 +78,9 @@ pub fn run<C: Suite>(ctx: &mut Ctx) {
         (false, true) => (40_000, 6_000),
         (false, false) => (220_000, 30_000),
     };
+    // FV_TINY: budgets for an interpreter (Miri), three orders of magnitude slower than native code
+    let tiny = std::env::var("FV_TINY").is_ok();
+    let (nbin, njson) = if tiny { (40, 10) } else { (nbin, njson) };
     let shapes_v = [(3u16, 2u16, "default"), (4, 3, "derived"), (5, 2, "sparse-u16"), (3, 3, "big-scalar")];
     let chunks = if ctx.quick() { 2 } else { 8 };
     for tix in 0..24usize {
